@@ -70,6 +70,13 @@ func (p RemotePackage) subPathString(subPath string) string {
 	// now tweak the package URL to be a sub-path URL instead.
 	subURL := p.url // shallow copy
 	subURL.Path += "//" + subPath
+	if subURL.RawPath != "" {
+		// The package's path was spelled in a way the default encoding
+		// would not reproduce (for example with a percent-escape that is
+		// not required). Extend that spelling too, or the URL falls back
+		// to the default encoding and names a different package.
+		subURL.RawPath += "//" + (&url.URL{Path: subPath}).EscapedPath()
+	}
 	if subURL.Scheme == p.sourceType {
 		return subURL.String()
 	}
